@@ -3,6 +3,7 @@ import ast
 
 from .common import *
 from . import ebpfshared as sh
+from . import c08
 
 EXPLANATION = (
     "Decided: the stack watermark discipline and the identity of hash-map "
@@ -19,8 +20,9 @@ EXPLANATION = (
     "(no mutable class attribute shared by all maps), program side and "
     "Python side address a cell by the descriptor's own count; (R04.5) "
     "save_registers parks values in free registers, not in memory. "
-    "Declined: aliasing through computed addresses (mI[r10 + expr]) and "
-    "array-map cells (C08).")
+    "(R08.1-R08.3, shared with C08) array-map cells: one layout source, "
+    "the slot reserved is the size accessed, one slot per visible name. "
+    "Declined: aliasing through computed addresses (mI[r10 + expr]).")
 ASSUMPTIONS = [
     "r10-relative storage is only handed out through the `stack` watermark",
 ]
@@ -39,6 +41,13 @@ def run(chk, repo):
     sh.slot_escape_rule(chk, repo, "R04.2")
     hash_cells(chk, repo)
     save_regs(chk, repo)
+    # array-map cells are variables too: the layout rules of C08 are
+    # necessary conditions of this property as well
+    chk.doc("R08.1", "array map: single source of layout")
+    chk.doc("R08.2", "array map: reservation = access size")
+    chk.doc("R08.3", "array map: one slot per visible variable")
+    c08.layout(chk, repo)
+    c08.dedup(chk, repo)
 
 
 def subprogram_locals(chk, repo):
